@@ -16,8 +16,11 @@ import traceback
 from collections import Counter
 
 VERIF = os.path.dirname(os.path.dirname(os.path.abspath(__file__)))
-EVIDENCE_DIR = os.path.join(VERIF, "evidence")
 REPLAY_DIR = os.environ.get("VERIF_REPLAY_DIR") or os.path.join(VERIF, "replays")
+# evidence describes /repo itself: a check that a self-test points at a scratch copy (VERIF_REPO_SRC) writes beside that copy
+EVIDENCE_DIR = os.environ.get("VERIF_EVIDENCE_DIR") or (
+    os.path.join(os.path.dirname(os.environ["VERIF_REPO_SRC"].rstrip("/")), "evidence") if os.environ.get("VERIF_REPO_SRC")
+    else os.path.join(VERIF, "evidence"))
 KNOWN_FILE = os.path.join(VERIF, "known_findings.json")
 
 
